@@ -485,7 +485,11 @@ func symConv(fr *frame, dst, src types.Type, x *sym) value {
 		}
 		return &sym{ts.mk("(_ to_fp 11 53) RNE", fp64Sort, x.t)}
 	case bs.Info()&types.IsInteger != 0 && bd.Info()&types.IsString != 0:
-		// string(rune): concretise
+		// string(rune): an ASCII rune is the one-byte string holding it (kept
+		// symbolic); anything else is concretised
+		if fr.i.branch(ts.bvCmp("bvult", x.t, ts.BV(0x80, x.t.sort.w)), fr) {
+			return symstr{&sym{ts.Resize(x.t, 8, false)}}
+		}
 		v := fr.concretize(x, "string(rune)")
 		return string(rune(signExt(v, x.t.sort.w)))
 	case bs.Info()&types.IsBoolean != 0 && bd.Info()&types.IsBoolean != 0:
